@@ -1,9 +1,14 @@
+mod accept;
 mod bits;
 mod core;
 mod decoder;
 mod framecheck;
 mod framegen;
 mod refdec;
+mod total;
+
+#[global_allocator]
+static GLOBAL: total::CountingAlloc = total::CountingAlloc;
 
 use crate::core::*;
 
@@ -30,6 +35,9 @@ fn main() {
             std::process::exit(2)
         });
         let fails = match pid {
+            "C01" => total::replay_c01(&v),
+            "C02" => accept::replay_c02(&v),
+            "C03" => accept::replay_c03(&v),
             "C04" | "C06" | "C07" | "C08" | "C09" | "C10" => decoder::replay(pid, &v),
             _ => usage(),
         };
@@ -42,6 +50,9 @@ fn main() {
     };
     let ctx = Ctx::new(pid, tier);
     match pid {
+        "C01" => total::run_c01(&ctx),
+        "C02" => accept::run_c02(&ctx),
+        "C03" => accept::run_c03(&ctx),
         "C04" => decoder::run_c04(&ctx),
         "C06" => decoder::run_c06(&ctx),
         "C07" => decoder::run_c07(&ctx),
